@@ -77,7 +77,8 @@ PROPS["C03"] = {
             "independence); (e) nil and invalidated cursors are no-ops yielding the zero key. NON-TRIVIAL iff the tree "
             "has height >= 4 and some node's successor is a proper ancestor >= 2 levels up. Distinct = hash of the case JSON. "
             "Element kinds as in C01; cursor probes carry a different identity from the stored key. "
-            "Cursor.Inorder is also started again from inside its own loop body (two reads of one cursor).",
+            "Cursor.Inorder is also started again from inside its own loop body (two reads of one cursor). "
+            "Move 'root' restarts one or both cursors from separate Tree.Root() calls.",
     "assumptions": COMMON_ASSUME,
 }
 
@@ -102,7 +103,8 @@ PROPS["C04"] = {
             "was used in a history of >=4 ops. Distinct = hash of the case JSON. "
             "leg str: omap.Map[string,string] (New or NewFunc(strings.Compare), started from the zero Map in a quarter of the cases) over 20 hostile strings as keys AND values ('', ' ', ' a', 'a ', tab, 'b\\n', invalid UTF-8, CR, VT ...): Set/Delete/Get/GetOK/Seek/Last+Prev walk/Clear, and after every step Len, Keys, the First..Next iteration and String() == 'omap[' + the k:v pairs separated by one space + ']'; on the zero Map only the operations its documentation lists. NON-TRIVIAL (leg str) iff at some step the first key or the last value is empty or has outer white space. "
             "ELEMENT KINDS: leg hist also instantiates the key type with int, string, int16, an 88-byte struct, *Cell, any and []byte, using omap.New for the ordered ones when the comparison is the natural one and NewFunc otherwise; half of those cases put their keys at the ends of the key type's range (MinInt.., around 0, ..MaxInt, so that differences overflow). Value types: int, string, *Cell, *Label (pointer-receiver String method) and a struct that is both fmt.Formatter and fmt.Stringer; Sets sometimes store the zero value (nil pointer, empty string, 0) and sometimes a new value equal to the one held. Values are compared by identity where the kind has one, and String() must equal the %v:%v rendering of the same keys and values (a panic in String is a violation). "
-            "leg deep: ONE map of 3.46 million int keys inserted in ascending order (thorough: also descending, 6 M, 1 M) - search paths of 33 nodes at omap's fixed balance factor; Seek of the key just inserted after each of the last 300 000 Sets, then GetOK / Seek / Next on the last, first and a spread of keys, First and Last.",
+            "leg deep: ONE map of 3.46 million int keys inserted in ascending order (thorough: also descending, 6 M, 1 M) - search paths of 33 nodes at omap's fixed balance factor; Seek of the key just inserted after each of the last 300 000 Sets, then GetOK / Seek / Next on the last, first and a spread of keys, First and Last. "
+            "About one hist case in 12 ends with a 'spine' block: Clear, a sorted fill of 32..100 keys (either direction), deletion of all but the last few keys and a thinning sample of their ancestors, then Seek and Get of every survivor (the map is as deep as its peak size allowed).",
     "assumptions": COMMON_ASSUME + ["under the k/2 comparator only comparator-equivalence of reported keys is required, not which representative is stored"],
 }
 
@@ -131,7 +133,8 @@ PROPS["C05"] = {
             "length>=4 with duplicates. Distinct = hash of the case JSON (rapid legs) / distinct by construction (sortx). "
             "Value vectors for Set / NewWithData / Sort are independent values (half of the cases) or ordered along the parent links (i-1)/2 (already a heap), along the wrong links i/2, sorted, or constant, each in either direction. "
             "ELEMENT KINDS (the library is generic, so the property must hold for every instantiation; a change that special-cases a type through a type switch, reflect, unsafe.Sizeof, DeepEqual or fmt is only visible this way): half of the cases run the queue / Sort on the harness's own (value,id) struct; the rest instantiate Queue[T] and Sort[T] with int (no identity: conservation as a multiset of values), string, an 88-byte comparable struct, fresh *Cell pointers (every Add/Set supplies a NEW pointer, also for a value already held; op setSame re-Sets the current values slot by slot), []byte, and any holding *Cell. The reference model stays in ints, 'held' means the very element handed in (Kit.Same), class elem=<kind>. The exhaustive Sort leg runs every sequence on the own struct plus one further kind cycling with the case index. "
-            "The each op also starts a second Each inside the callback of the first.",
+            "The each op also starts a second Each inside the callback of the first. "
+            "One NewWithData case in 25 hands over a buffer with 65 536..131 073 elements of spare capacity (the documented preallocation idiom).",
     "assumptions": COMMON_ASSUME + ["a defect whose symptoms coincide with a deviation model of F1/F2 on every generated history would be filed under the known finding"],
 }
 
@@ -172,7 +175,8 @@ PROPS["C07"] = {
             "same shadow rule. "
             "One peek in twenty uses an offset at the ends of the int range (math.MinInt, MinInt+1, MaxInt, MaxInt-Len, +-2^31, +-2^32). "
             "ELEMENT KINDS (the library is generic, so the property must hold for every instantiation; a change that special-cases a type through a type switch, reflect, unsafe.Sizeof, DeepEqual or fmt is only visible this way): half of the hist cases run Queue[int]; the others instantiate the queue with string, int16, uint8, an 88-byte struct, *Cell (new pointer per element, about half of the pointees deeply equal), []byte (fresh backing array, four contents) or any holding *Cell. Serial numbers are converted at the API boundary, and every comparison demands the very element that was supplied (==, same pointer, same backing array, content intact) and the zero value of the type on empty. The 'fill exactly' prefix and the labelling shadow use the capacities append really produces for that element type. Leg exh stays exhaustive for Queue[int] up to L and re-runs every case up to L-1 with one of the seven other kinds, cycling by case index. "
-            "Constructor edge: NewSize(N) for N in 1025..4100, filled exactly, head at the runtime's growth amount for that element type -1/+0/+1/+2, then Add/Push (about 1 case in 150). The each op also starts a second Each (and a Slice) inside the callback of the first.",
+            "Constructor edge: NewSize(N) for N in 1025..4100, filled exactly, head at the runtime's growth amount for that element type -1/+0/+1/+2, then Add/Push (about 1 case in 150). The each op also starts a second Each (and a Slice) inside the callback of the first. "
+            "NewSize arguments include 1024, 1025, 1500 and 2049 (large, mostly empty buffers).",
     "assumptions": COMMON_ASSUME + [
         "capacity growth of the shadow follows the runtime's append for the same element type (labels only)",
         "statement coverage of queue.go / slice.Rotate is not recorded by the driver; the shadow classes "
@@ -214,7 +218,8 @@ PROPS["C10"] = {
             "and a different-ring Join in one history. Distinct = distinct canonical JSON of the case (64-bit hash), unioned "
             "over shards. "
             "ELEMENT KINDS (the library is generic, so the property must hold for every instantiation; a change that special-cases a type through a type switch, reflect, unsafe.Sizeof, DeepEqual or fmt is only visible this way): every leg draws an element kind for its container: half of the cases use int; the rest instantiate Stack/Queue/List/Ring with string, int16, an 88-byte comparable struct, *Cell pointers, []byte or any (holding fresh pointers). The model stays in ints and every comparison additionally requires, for the kinds with an identity, that the element returned/listed is the very element that was handed in (pointer / backing array / value+ID), with the zero value of T where the int model has 0. In the list leg half of the Sets through a cursor at a real element (spliced in by construction) supply a NEW element whose value (for pointer-like kinds: whose pointee/contents) equals the one it replaces, and the list must then hold the element that was set; ring.Of must store the given elements themselves and ring.New zero values. Peek/At offsets include the ends of the int range. "
-            "The each ops also start a second Each inside the callback of the first.",
+            "The each ops also start a second Each inside the callback of the first. "
+            "One list Add in ten passes 15..65 values in a single call.",
     "assumptions": COMMON_ASSUME + [
         "a hang is recognised by the kit's watchdog (case still running after 30 s wall and 20 s CPU; the operations are O(n <= 64))",
         "mlink cursors are value-copyable (the position check walks a copy of the cursor)",
@@ -297,7 +302,8 @@ PROPS["C13"] = {
             "(contexts meet or overlap), n>0, and an input has a repeated line. Distinct: by construction (exh) / hash "
             "of the case JSON (rand). "
             "Memory layouts: the two arguments of New are separate slices, or (where one is a prefix / suffix of the other, which the generator produces on purpose) that very prefix / suffix of the other's memory, or adjacent windows of one buffer. "
-            "The chunk oracle holds after every step of an arbitrary pipeline over New, AddContext (also repeated: each call adds at most its n lines to what was there), Unify and Diff.Format with any of the three formatters (rendering a diff must leave its chunks as they were); a finished diff stays intact while later diffs are built (vk Retain).",
+            "The chunk oracle holds after every step of an arbitrary pipeline over New, AddContext (also repeated: each call adds at most its n lines to what was there), Unify and Diff.Format with any of the three formatters (rendering a diff must leave its chunks as they were); a finished diff stays intact while later diffs are built (vk Retain). "
+            "One rand case in four afterwards calls New again on one pair of slices whose contents were updated in place (same storage, same lengths, up to 3 rounds, one of them making the sides equal), under the same oracle.",
     "assumptions": COMMON_ASSUME,
     "technique": "small-scope exhaustive enumeration + property-based testing (rapid) with an executable patch-application oracle",
 }
@@ -350,7 +356,8 @@ PROPS["C19"] = {
              plain("huge", "pdistinct", "TestC19Huge"),
              rapid("nan", "pdistinct", "TestC19NaN", 1, 300, 4, 20000),
              plain("long", "pdistinct", "TestC19Long", solo=True),
-             plain("marathon", "pdistinct", "TestC19Marathon", solo=True)],
+             plain("marathon", "pdistinct", "TestC19Marathon", solo=True),
+             plain("indep", "pdistinct", "TestC19Indep")],
     "rule": "leg reuse: one counter is run 24 times on the same stream (D distinct values, D > 20*size and not of the form Len*2^k) with Reset between the runs; if all 24 runs return the same Count the mean over repeated runs is stuck away from D (runs through Reset are not independent) - for independent runs and sizes >= 16 the probability of that is below 1e-15; non-trivial = the runs gave at least two different counts. The counter seeds itself from crypto/rand, so no run is bit-reproducible; the deterministic clauses hold "
             "with probability 1 and are checked on every run, the unbiasedness clause is statistical.  leg det: a case "
             "is (size, reps, ops) with ops[i] >= 0 = Add(value) and -1 = Reset; size from {2,3,4,8,16,64} (75%) or "
@@ -387,7 +394,8 @@ PROPS["C19"] = {
             "near/far).  evaluations counts streams; the class `counter_runs` counts the individual counters. "
             "leg huge: buffers of 2^17+1 .. 2^20 elements: fill with size-1, about 3/4 size, or 1-2 x size distinct values (exact Len/Count checked every 4096 values while below capacity; Count = Len x 2^k at the end), Reset (Len = Count = 0), then a small exact stream; non-trivial iff more than 2^18 values were buffered at the Reset. "
             "ELEMENT KINDS (the library is generic, so the property must hold for every instantiation; a change that special-cases a type through a type switch, reflect, unsafe.Sizeof, DeepEqual or fmt is only visible this way): about half of the det/reuse/stat cases and the original huge cases use Counter[int] on the stream values; the others instantiate Counter with int (range ends, pairs equal mod 2^32 or equal as float64), string, int16, an 88-byte struct, [64]byte, [512]byte, *Cell (nil; distinct pointers with deeply equal pointees are distinct values), any (nil, *Cell, int/int32/string of the same text) or float64 (+0/-0 are one value; a NaN is buffered only before a Reset, after which Len = Count = 0), every stream value mapped one-to-one to an element and value 0 to the zero value. About 10% of det cases and several huge cases use buffer sizes no stream can fill (2^16 .. 2^32+100, 3<<32, 2^52, 2^62, MaxInt): the counter must stay exact throughout. The huge leg also keeps counters of 88-, 64-, 512- and 16-byte elements exact with more than 4, 16 and 64 MiB of elements buffered, and all 65536 int16 values; non-trivial (huge) iff more than 2^18 values or more than 4 MiB of elements were buffered. leg nan: Counter[float64] of size 2..100 fed up to 4 x size values, NaNs among them: asserted is only that every Add returns (kit watchdog) and that Reset leaves Len = Count = 0 (regression of F8b). "
-            "leg long: R independent counters of size 3..8 are fed 2^19..2^21 distinct values (16..20 eviction passes); the deterministic clauses are checked every 1024 Adds, and the mean Count must exceed T*n with T = 1 - sqrt(2c*ln(1e10)/R), c = E[Count^2]/n^2 from the exact law of the algorithm (a proved lower-tail bound for sums of non-negative variables: false-alarm probability <= 1e-10 per case). leg marathon: W parallel counters of size 2 or 3 fed 0,1,2,... with Len <= size and 'Count is Len times a non-decreasing power of two' checked every 65536 Adds until a multiplier >= 2^24 (quick) / 2^32 (thorough: about 10^9 Adds each on 16 counters) is seen.",
+            "leg long: R independent counters of size 3..8 are fed 2^19..2^21 distinct values (16..20 eviction passes); the deterministic clauses are checked every 1024 Adds, and the mean Count must exceed T*n with T = 1 - sqrt(2c*ln(1e10)/R), c = E[Count^2]/n^2 from the exact law of the algorithm (a proved lower-tail bound for sums of non-negative variables: false-alarm probability <= 1e-10 per case). leg marathon: W parallel counters of size 2 or 3 fed 0,1,2,... with Len <= size and 'Count is Len times a non-decreasing power of two' checked every 65536 Adds until a multiplier >= 2^24 (quick) / 2^32 (thorough: about 10^9 Adds each on 16 counters) is seen. "
+            "leg indep: 600 counters of size 4 (and 300 of size 2) constructed one after the other and fed the same stream: no period p <= N/2 may make the (Len, Count) trajectories of counters i and i+p identical for every i (independent runs; chance agreement of even one pair is far below 2^-40).",
     "assumptions": COMMON_ASSUME + [
         "crypto/rand and math/rand/v2 ChaCha8 deliver independent uniform bits (the statistical clause is a statement about the algorithm, not about the entropy source)",
         "the false-alarm bound of the statistical leg for buffer sizes below 8 rests on simulation of the Student statistic out to the 1e-5 level and a normal-tail extrapolation with a safety factor of about 2 in standard deviations; it is not a proved bound",
@@ -436,7 +444,8 @@ PROPS["C20"] = {
             "skipped (the generator never produces one).  Distinct: mbits/trunc/natural are distinct by construction "
             "(seeded random extras are de-duplicated); naturalrand = distinct canonical JSON (64-bit hash) unioned "
             "over shards. "
-            "leg mbitsval (rapid): groups of 2/4/8 eight-byte words whose values cancel under addition modulo 2^64 or under xor (or are arbitrary), behind 0..80 zero bytes, at all 8 alignments, ragged lengths: LeadingZeroes/TrailingZeroes/Zero against the byte-by-byte definitions.",
+            "leg mbitsval (rapid): groups of 2/4/8 eight-byte words whose values cancel under addition modulo 2^64 or under xor (or are arbitrary), behind 0..80 zero bytes, at all 8 alignments, ragged lengths: LeadingZeroes/TrailingZeroes/Zero against the byte-by-byte definitions. "
+            "Non-digit tokens of the natural-order legs contain, one character in ten, non-ASCII decimal digits, fullwidth digits and letters, superscripts and Roman numerals (CompareNatural's digits are '0'..'9' only).",
     "assumptions": COMMON_ASSUME + [
         "amd64: unaligned 64-bit loads/stores are legal; an out-of-slice READ is detected only when it changes the result (both guard values are tried), an out-of-slice WRITE only within the 8..15 guard bytes on each side",
         "int is 64 bits; digit runs are limited to 17 significant digits in generated inputs",
@@ -473,7 +482,8 @@ PROPS["C14"] = {
             "that collapsed patch. NON-TRIVIAL iff the diff is non-empty and has an empty range, a one-line range or a "
             "line that is empty or starts with one of - + < > @ space \\ * ! d or a digit (git leg: >=2 file sections). "
             "Distinct: by construction (exh), hash of the case JSON (rand, git), distinct (L,R,n) (gnupatch). "
-            "Every reader call stands for itself: 40% of the rand/git cases first parse a malformed variant of the text (9 shapes x 8 stray lines; outcome ignored) directly before the real parse, and parsed patches are re-validated after the next case (vk Retain). Header names include complete quoted literals (\"x\", `x`, 'a').",
+            "Every reader call stands for itself: 40% of the rand/git cases first parse a malformed variant of the text (9 shapes x 8 stray lines; outcome ignored) directly before the real parse, and parsed patches are re-validated after the next case (vk Retain). Header names include complete quoted literals (\"x\", `x`, 'a'). "
+            "The formatters write into a bytes.Buffer directly, through a writer that offers Write only, or through a flushed bufio.Writer (chosen by the shape of the diff). Header names may be empty (then only the timestamps are required to survive: the placeholder written for an empty name is undocumented).",
     "assumptions": COMMON_ASSUME + ["lines contain no newline and no carriage return", "GNU patch 2.7.6 is the external differential oracle; when it is absent leg gnupatch is skipped and says so"],
     "technique": "small-scope exhaustive enumeration + property-based testing (rapid): round-trip, reference appliers, GNU patch differential",
 }
@@ -525,7 +535,8 @@ PROPS["C16"] = {
             "distinct modes of the reference (word, escape, single, double, escape-in-double) and ends a token otherwise "
             "than by a blank right after a plain character. Distinct: by construction (exh, shells), hash of the case JSON (rand). "
             "About 1 case in 400 pads the input to 0.5-2 MiB (reference tokenizer vs Split and Scanner.Split incl. the ok / Complete flag); source readers: the chunked reader, strings.Reader, bytes.Buffer, bufio.Reader of 16 / 4096 / 65536 bytes, LimitReader. "
-            "leg conc: 8 goroutines each tokenize an escape-heavy input of their own (Split, a reused Scanner, a new Scanner) for a bounded number of iterations and must keep obtaining the reference tokenizer's fields and flag; leg rand draws escape-heavy inputs in one case of seven, so that the side-by-side mode overlaps different escapes.",
+            "leg conc: 8 goroutines each tokenize an escape-heavy input of their own (Split, a reused Scanner, a new Scanner) for a bounded number of iterations and must keep obtaining the reference tokenizer's fields and flag; leg rand draws escape-heavy inputs in one case of seven, so that the side-by-side mode overlaps different escapes. "
+            "After the last token the chunked source is given more bytes (a source that grows after io.EOF): Next must keep returning false.",
     "assumptions": COMMON_ASSUME + ["the real-shell comparison is restricted to the statement's domain: complete inputs without unquoted newlines over the tokenizer's classes"],
     "technique": "small-scope exhaustive enumeration + property-based testing (rapid): differential against an independent reference tokenizer and real shells; reader fragmentation",
 }
@@ -568,6 +579,7 @@ PROPS["C12"] = {
              plain("lcsexh", "pslice", "TestC12LCSExhaustive", solo=True),
              rapid("lisrand", "pslice", "TestC12LISRand", 4, 10000, 16, 200000),
              rapid("lisbig", "pslice", "TestC12LISBig", 4, 40, 16, 600),
+             plain("conc", "pslice", "TestC12Conc"),
              rapid("lcsrand", "pslice", "TestC12LCSRand", 4, 5000, 16, 60000)],
     "rule": "LIS/LNDS legs: a case is {vs, cmp} with cmp in nat (slice.LIS / slice.LNDS), rev (LISFunc / LNDSFunc with the "
             "reversed order) or half (…Func comparing v>>1, so distinct elements compare equal and the identity of the "
@@ -598,7 +610,8 @@ PROPS["C12"] = {
             "common subsequences (as sequences of classes). Distinct = distinct by construction (exhaustive legs) / "
             "distinct canonical JSON of the case (rapid legs, 64-bit hash, unioned over shards). "
             "ELEMENT KINDS: half of the cases (random legs) and half of the indices (exhaustive legs, dealt by a hash of the case index) keep int elements; the others instantiate the functions with string, int16, an 88-byte struct, *Cell pointers, interface elements holding pointers, float64 (zeros of either sign, which are == and must be treated as equal), a word-table string kind containing 32-bit checksum-collision pairs (FNV-1, FNV-1a, Adler-32) and, optionally, strings that share storage as prefixes of one another, and []byte for the ...Func variants. Elements carry an identity besides their value, so inputs with the same values but different elements (distinct pointers to deeply equal pointees) are different inputs for ==, and every identity/aliasing check runs on the instantiated slices. LIS/LNDS natural order also runs on string, int16 and float64 stretched over the kind's whole range; with NaNs in a float64 input only this is asserted: no panic, input unchanged, the result is a bitwise subsequence sorted under cmp.Compare, with a length between the optimum of the non-NaN elements and the optimum under cmp.Compare. "
-            "lcsrand draws the same round-number lengths in one case in six; lisrand has a shape 'non-decreasing run of exactly 2^k (32..256, rarely 512/1024, +-1) elements, then a strict new minimum, then a run building on it', in every comparison. Returned LIS/LNDS/LCS slices are compared with frozen copies after the later call of the case and after the next case.",
+            "lcsrand draws the same round-number lengths in one case in six; lisrand has a shape 'non-decreasing run of exactly 2^k (32..256, rarely 512/1024, +-1) elements, then a strict new minimum, then a run building on it', in every comparison. Returned LIS/LNDS/LCS slices are compared with frozen copies after the later call of the case and after the next case. "
+            "One lcsrand case in 12 calls LCSFunc with the symmetric but non-transitive relation |a-b| <= 1 (the documentation asks only for a function 'to compare elements'): the result must be a subsequence of one input whose elements are related, in order, to elements of the other, of the length of the largest monotone matching. leg conc: 8 goroutines at once, each calling LNDS and LIS 40-100 times on a private input of 64..5000 ints, every result under the sequential oracle.",
     "assumptions": COMMON_ASSUME + ["comparison functions are total preorders on ints (natural, reversed, v>>1); the "
                                     "equality passed to LCSFunc is an equivalence relation"],
 }
@@ -633,7 +646,8 @@ PROPS["C17"] = {
             "empty / all kept / none kept / at least one kept element behind a dropped one (a swap is needed). Distinct "
             "= distinct by construction (exh) / distinct canonical JSON of the call (rand). "
             "ELEMENT KINDS: the same calls are made with string, int16, 1-byte, 88-byte struct, pointer, interface, float64 and []byte elements (kinds dealt by case index / drawn for half of the random cases); Partition additionally gets equal-looking but distinguishable elements (+0/-0 with a sign predicate, distinct pointers to deeply equal pointees with an identity predicate) and must still return exactly the elements the predicate accepts. Rotate/At/PtrAt arguments include math.MinInt/MaxInt. "
-            "About one rand case in 4000 is a Rotate of an int slice of 2^20-1 .. 2^22+135 elements checked position by position in O(n), three in four of them directly after a Rotate of m = a*b elements by k with gcd(k, m) > 1, the long slice having 2^21+m or 2^22+m elements and rotated by k or k+-1; a quarter of the small Rotates are preceded by a Rotate of another slice by the same k. Chunks/Batches results are re-checked after the next case.",
+            "About one rand case in 4000 is a Rotate of an int slice of 2^20-1 .. 2^22+135 elements checked position by position in O(n), three in four of them directly after a Rotate of m = a*b elements by k with gcd(k, m) > 1, the long slice having 2^21+m or 2^22+m elements and rotated by k or k+-1; a quarter of the small Rotates are preceded by a Rotate of another slice by the same k. Chunks/Batches results are re-checked after the next case. "
+            "Every batch of Batches, the last one and a single batch covering the whole slice included, must be capacity-clipped.",
     "assumptions": COMMON_ASSUME + ["element kinds as listed in the rule; Head/Tail/Stripe are only called with non-negative arguments "
                                     "(negative ones are not documented)"],
 }
